@@ -313,6 +313,7 @@ class Turnstile(object):
     def wrap(self, name, fn, neutral):
         def wrapped(*args, **kwargs):
             self.go.acquire()
+            self.thread = mt.current_thread()
             if self.stopping:
                 self.last = (name, 'skipped')
                 self.done.release()
@@ -330,10 +331,30 @@ class Turnstile(object):
         return wrapped
 
     def step(self, timeout=20):
+        '''One gated step.  A step which does not return within `timeout` is
+        judged by what its thread is doing, not by the time alone: if the
+        thread sits at the very same place in two samples it is stuck
+        (RuntimeError: a verdict); if it moves, the machine is slow and more
+        time is given (up to 10 x timeout, then TimeoutError: no verdict).'''
+        import sys
+        import time
+        import traceback
         self.go.release()
-        if not self.done.acquire(timeout=timeout):
-            raise TimeoutError('scheduler step did not return')
-        return self.last
+        for _ in range(10):
+            if self.done.acquire(timeout=timeout):
+                return self.last
+            t = getattr(self, 'thread', None)
+
+            def where():
+                f = sys._current_frames().get(t.ident) if t else None
+                return [(x.filename, x.lineno) for x in
+                        traceback.extract_stack(f)] if f else None
+            a = where(); time.sleep(1.0); b = where()
+            if a is not None and a == b:
+                raise RuntimeError('scheduler step does not move: %s'
+                                   % ['%s:%d' % (os.path.basename(fn), ln)
+                                      for fn, ln in a[-4:]])
+        raise TimeoutError('scheduler step did not return')
 
 
 # ------------------------------------------------------------------------------
